@@ -279,7 +279,9 @@ static int mk_obj(int ty, int n, int first, int lengths_given, sbdf_object** out
 		char** data = malloc(sizeof(char*) * (size_t)(n + 1)); int* lens = malloc(sizeof(int) * (size_t)(n + 1));
 		for (i = 0; i < n; ++i)
 		{
-			bytes b = unhex(tok[first + i]); data[i] = (char*)b.p; lens[i] = (int)b.n;
+			bytes b;
+			if (!strcmp(tok[first + i], "~")) { data[i] = 0; lens[i] = 0; continue; }     /* an element that is not there */
+			b = unhex(tok[first + i]); data[i] = (char*)b.p; lens[i] = (int)b.n;
 			if (lengths_given)
 			{
 				/* the stated length is all the callee may rely on: what follows is not a terminator */
